@@ -1,6 +1,6 @@
 (* C07 — Genotype-to-phenotype mapping is a pure function of the genotype.
    Only statements closed by [exact]; Print Assumptions; non-vacuity example. *)
-From GE Require Import Base Tape Grammar WellTyped Synth Linear SynthFrame SynthGenes.
+From GE Require Import Base Tape Grammar WellTyped Synth Linear SynthFrame SynthGenes DnaExtends DsgeReplay.
 Open Scope Z_scope.
 
 (* GE: for every grammar, decider (grow, full, PI-grow, progressive), genotype and fuel, the mapping
@@ -44,3 +44,23 @@ Proof.
   eexists. split; [vm_compute; reflexivity|]. eexists. eexists. split; [vm_compute; reflexivity|].
   split; [eexists; reflexivity | vm_compute; lia].
 Qed.
+(* "the only permitted side effect being dynamic SGE's on-demand extension of the genotype itself": whatever the grammar,
+   the decider, the state and the outcome (success, failure, internal backtracking), a run of create_node leaves every
+   gene list of the genotype carried in the state as a PREFIX of what it is afterwards - genes are only ever appended
+   (by dSGE's reads), never rewritten, reordered or dropped *)
+Theorem C07_mapping_only_extends_the_genotype : forall fuel g k t ctx deps st,
+  dna_ext st (snd (create_node fuel g k t ctx deps st)).
+Proof. exact create_node_extends_dna. Qed.
+Print Assumptions C07_mapping_only_extends_the_genotype.
+
+(* dynamic SGE, hierarchies without refined fields (plain_decl; with refined fields the mapping draws from the shared
+   stream on every call: known finding F15): mapping the genotype as an earlier mapping left it returns the SAME
+   program, draws NOTHING from whatever source it is handed, and leaves the genotype unchanged - for every grammar,
+   depth limit, genotype, source and fuel (relational replay of every gene read, abandoned attempts included) *)
+Theorem C07_dsge_mapping_is_idempotent : forall fuel g D s dna v st1,
+  plain_decl (g_decl g) = true ->
+  dsge_map fuel g D s dna = (Ok v, st1) ->
+  forall s', exists st2, dsge_map fuel g D s' (st_dna st1) = (Ok v, st2) /\ st_src st2 = s' /\ st_dna st2 = st_dna st1.
+Proof. exact dsge_map_idempotent. Qed.
+Print Assumptions C07_dsge_mapping_is_idempotent.
+
